@@ -143,6 +143,7 @@ func checkC01(p *Prog, res *Result, tier string) {
 	res.rule("C01-R5", "no delete / compare-and-delete is reachable from the write entry points (failure leaves the key unchanged)", 4)
 	res.rule("C01-R7", "the index value carries the deletion flag exactly when the version record written with it is the deletion marker (also in the repair write, which re-plays either kind)", 4)
 	res.rule("C01-R8", "index and version records are written without an engine TTL, except by the classified Event create (C17-R5): a record that the engine removes by itself makes a later condition fail, or a create succeed, although no write intervened", 8)
+	res.rule("C01-R9", "a condition is reported as failed only for a failed condition: every package-level error variable is an error class of its own (none wraps another), so errors.Is(err, ErrCASFailed) on the write paths holds for failed compares only", 6)
 	res.rule("C01-R6", "every engine evaluates CAS / PutIfNotExist atomically with the write: compare-before-write, one engine commit, memkv lock held from BeginBatchWrite to Commit (C11-R1/R2); the metrics wrapper forwards conditional operations unchanged (C11-R5)", 12)
 
 	// ---- R1 ----
@@ -396,6 +397,9 @@ func checkC01(p *Prog, res *Result, tier string) {
 			}
 		}
 	}
+
+	// ---- R9: 'failed condition' is a class of its own ----
+	checkSentinelIdentity(p, res, "C01-R9")
 
 	// ---- R5: no deletes reachable from write entry points ----
 	entries := []*ssa.Function{}
